@@ -1,6 +1,10 @@
 CHECK = {
-    "mode": "inpkg", "pkg": "model",
-    "files": ["c20_common_test.go", "c20_bpe_test.go", "c20_spm_test.go"],
+    "builds": [
+        {"mode": "inpkg", "pkg": "model", "files": ["c20_common_test.go", "c20_bpe_test.go", "c20_spm_test.go", "c20_firstuse_test.go"]},
+        # the same package under the race detector, for the concurrent-first-use target only
+        {"mode": "inpkg", "pkg": "model", "files": ["c20_common_test.go", "c20_bpe_test.go", "c20_spm_test.go", "c20_firstuse_test.go"], "race": True},
+    ],
+    "env": {"GORACE": "halt_on_error=1"},
     "level": "exploration",
     "engine": "tokenizer-roundtrip",
     "technique": "property-based round-trip testing (rapid, shrinking) of BytePairEncoding and SentencePieceModel "
@@ -27,6 +31,10 @@ CHECK = {
         {"name": "TestC20SPM",
          "quick": {"cases": 10000, "shards": 2, "soft_s": 40},
          "thorough": {"cases": 500000, "shards": 5, "soft_s": 330}},
+        # several callers make the first Encode calls on a fresh vocabulary at the same moment (race detector build)
+        {"name": "TestC20FirstUse", "build": 1,
+         "quick": {"cases": 1500, "shards": 1, "soft_s": 30},
+         "thorough": {"cases": 60000, "shards": 2, "soft_s": 300}},
     ],
     "floors": {"multibyte": 0.4, "whitespace_run": 0.15, "special_literal": 0.2, "ascii_punct": 0.3,
                "contraction": 0.05, "crlf": 0.03, "combining_mark": 0.05, "emoji_zwj": 0.02, "cjk": 0.05,
@@ -52,6 +60,7 @@ CHECK = {
             "Non-trivial = the text contains a multi-byte character, a special-token literal or two consecutive whitespace "
             "characters; distinct = distinct hash of the generated case.",
     "assumptions": [
+        "TestC20FirstUse: 2-8 goroutines released together make the first Encode calls on one freshly built per-case vocabulary (BPE or SentencePiece); every result must equal a lone caller's on an identically built vocabulary; built with -race and GORACE=halt_on_error=1, so an unsynchronised lazy initialisation is reported whatever the timing (the report names the current case)",
         "long texts: the repeated unit never contains a special-token literal, because both encoders splice their fragment list once per occurrence (quadratic: minutes for 50 000 occurrences) - a cost, not part of the property; special literals follow the long fragment. Per-case vocabularies of long cases are learnt from the first four repetitions only. Texts above 260 KiB are not generated",
         "the pre-tokenizer patterns are the defaults that models/llama (= models/mllama) and models/mistral3 pass, read from their source in the tree under test (package model cannot import them); fallback = harness copy of the pinned commit; see coverage.pretokenizer_pattern_source",
         "a replay with expect=known:<slug> is reported instead of failed while <slug> is only assumed through VERIF_ASSUME_KNOWN (development aid); listed in known_findings.json it fails as the driver expects",
